@@ -14,7 +14,8 @@ class SramWorld(World):
     stub_components = ("Wishbone requester (seeded byzantine agent)",)
     fault_kinds = ("stb_held_through_ack", "cyc_alone", "stb_alone", "request_changes_in_ack_cycle",
                    "partial_select", "zero_select", "write_to_read_only",
-                   "init_is_one_shot_iterable", "init_reassigned", "init_patched_in_place")
+                   "init_is_one_shot_iterable", "init_reassigned", "init_patched_in_place",
+                   "second_instance_in_process")
     assumptions = (
         "Amaranth's Python RTL simulator executes the elaborated netlist (including its memory "
         "primitive) faithfully",
@@ -36,6 +37,7 @@ class SramWorld(World):
         if rng.chance(0.15):
             # the image is replaced through the `init` attribute before the design is elaborated
             cfg["reinit"] = [rng.bits(dw) for _ in range(rng.range(0, depth))]
+        cfg["decoy"] = int(rng.chance(0.1))
         if rng.chance(0.15):
             cfg["patch"] = [[rng.below(depth), rng.bits(dw)] for _ in range(rng.range(1, 3))]
         return cfg
@@ -94,6 +96,12 @@ class SramWorld(World):
                 image += [0] * (k_ + 1 - len(image))
                 image[k_] = v_ & ((1 << dw) - 1)
                 stats.fault("init_patched_in_place")
+        if config.get("decoy"):
+            try:
+                WishboneSRAM(size=size, data_width=dw, granularity=g, writable=not wr, init=[7])
+            except (ValueError, TypeError):
+                pass
+            stats.fault("second_instance_in_process")
         wb = dut.wb_bus
         depth = size * g // dw
         nsel = dw // g
